@@ -17,12 +17,15 @@ vars == <<l, st>>
 Empty == [on |-> FALSE, session |-> 0, analysis |-> "", nom_ops |-> <<>>, nom_pert |-> <<>>, proj |-> <<>>,
           zmax |-> DOne, has_comp |-> FALSE, samplers |-> <<>>, rows |-> <<>>, rows1 |-> <<>>]
 
-\* operand values: identical (NaN = NaN) without compensation; with compensation an
-\* optimiser ran in between: agreement to `bits` of the operand's nominal magnitude
+\* operand values: without compensation the same computation on the same prescription -
+\* identical up to the last bits (set_thickness moves the later vertices by a computed
+\* difference, so a vertex reached through another history can differ by an ulp): 2^-44 of
+\* the operand's magnitude, NaN = NaN; with compensation an optimiser ran in between:
+\* agreement to `bits` of the operand's nominal magnitude
 SameOp(a, b, nom, exact, bits) ==
-  IF exact THEN a = b
-  ELSE a = b \/ (IsFin(a) /\ IsFin(b) /\
-                 Small(DSub(a, b), DAdd(Sum2(a, b), IF IsFin(nom) THEN DAbs(nom) ELSE DZero), bits))
+  a = b \/ (IsFin(a) /\ IsFin(b) /\
+            Small(DSub(a, b), DAdd(Sum2(a, b), IF IsFin(nom) THEN DAbs(nom) ELSE DZero),
+                  IF exact THEN 44 ELSE bits))
 SameOps(a, b, nom, exact, bits) ==
   Len(a) = Len(b) /\ Len(a) = Len(nom) /\ \A j \in 1..Len(a) : SameOp(a[j], b[j], nom[j], exact, bits)
 
